@@ -150,6 +150,7 @@ class IsCompliant:
 from pyvc.api import ufun
 
 results_of = ufun("results_of", ["Project", "bool", "bool"], "list[_MultiprocessingResult]")
+subset_results_of = ufun("subset_results_of", ["Project", "set[Path]"], "list[_MultiprocessingResult]")
 
 
 @spec
@@ -166,7 +167,9 @@ class GenerateFileReports:
              "add_license_concluded": "bool", "return": "list[_MultiprocessingResult]"}
 
     def post(project, do_checksum, add_license_concluded, subset_files, result):
-        return implies(subset_files is None, result == results_of(project, do_checksum, add_license_concluded)) and wf_results(result)
+        return (implies(subset_files is None, result == results_of(project, do_checksum, add_license_concluded))
+                and implies(subset_files is not None, result == subset_results_of(project, subset_files))
+                and wf_results(result))
 
 
 is_interrupt = ufun("is_interrupt", ["PyExc"], "bool")
@@ -687,3 +690,29 @@ class SubsetIsCompliant:
     def post(self, result):
         # C13: lint-file exits 1 iff it reported any problem
         return result == (not subset_reports_anything(self))
+
+
+@contract("reuse.report.ProjectSubsetReport.generate", serves=["C13"])
+class SubsetGenerate:
+    fresh_result = True
+    types = {"project": "Project", "subset_files": "set[Path]", "multiprocessing": "bool", "return": "ProjectSubsetReport"}
+    raises = {KeyboardInterrupt: None}
+
+    def post(project, subset_files, result):
+        R = subset_results_of(project, subset_files)
+        # the same aggregation as `reuse lint`, restricted to the per-file categories
+        return errs_part(result, R, len(R)) and reports_part(result, R, len(R)) and missing_part(result, R, len(R)) and wf_results(R)
+
+    loops = {
+        0: LoopSpec(
+            inv=lambda subset_report, results, _i: (
+                use(mff_step, results, _i) and use(mff_base, results)
+                and errs_part(subset_report, results, _i) and reports_part(subset_report, results, _i)
+                and missing_part(subset_report, results, _i)),
+            types={"file_report": "Optional[FileReport]"}),
+        1: LoopSpec(
+            inv=lambda subset_report, results, file_report, _i0, _done: (
+                forall(lambda l, p: (l in subset_report.missing_licenses and p in subset_report.missing_licenses[l])
+                       == (missing_from_files(results, _i0, l, p) or (l in _done and p == file_report.path)), "str", "Path")
+                and no_empty_values(subset_report.missing_licenses))),
+    }
